@@ -4,7 +4,9 @@
 (* repr(C) view {ptr,len}, possibly replaced by foreign code with the C-land  *)
 (* empty view {NULL,0}, read/written through the view's Deref/DerefMut, and   *)
 (* imported back.  Pointers are abstract: "null", "dangling" (what Rust uses  *)
-(* for empty slices: non-null, never dereferenced) or the allocation "A".     *)
+(* for empty slices: non-null, never dereferenced), the allocation "A", or     *)
+(* "A+1": one element into "A" (a sub-range of a live buffer -- in particular *)
+(* an EMPTY sub-range, which has length 0 and a real pointer).                *)
 EXTENDS Naturals, Sequences, FiniteSets
 CONSTANTS MaxLen, MaxSteps
 Kind == {"imm", "mut", "own", "str", "ownstr"}
@@ -24,7 +26,9 @@ None == [where |-> "none", k |-> "imm", ptr |-> "null", len |-> 0]
 From(r)  == [where |-> "ffi", k |-> r.k, ptr |-> r.ptr, len |-> r.len]          \* identity on {ptr,len}
 Into(v)  == IF v.ptr = "null" THEN [where |-> "rust", k |-> v.k, ptr |-> "dangling", len |-> 0]
             ELSE [where |-> "rust", k |-> v.k, ptr |-> v.ptr, len |-> v.len]
-ContentsOf(v, d) == IF v.ptr = "A" THEN SubSeq(d, 1, v.len) ELSE <<>>          \* NULL/dangling: empty
+InA(p) == p \in {"A", "A+1"}
+Off(p) == IF p = "A+1" THEN 1 ELSE 0
+ContentsOf(v, d) == IF InA(v.ptr) THEN SubSeq(d, 1 + Off(v.ptr), v.len + Off(v.ptr)) ELSE <<>>          \* NULL/dangling: empty
 Contents(v) == ContentsOf(v, data)
 
 Init == /\ val = None /\ data = <<>> /\ alive = FALSE /\ frees = 0
@@ -39,6 +43,14 @@ RustMake(k, n) ==
        /\ data' = d /\ alive' = (n > 0)
        /\ orig' = [ptr |-> p, len |-> n, data |-> d]
   /\ UNCHANGED <<frees, bad>>
+\* Rust borrows the sub-range [1, 1+m) of a live buffer of n elements (m = 0: an empty range with a real pointer)
+RustMakeSub(k, n, m) ==
+  /\ Tick /\ val.where = "none" /\ ~alive /\ frees = 0 /\ ~Owned(k) /\ n >= 1 /\ m < n
+  /\ LET d == [i \in 1..n |-> 64 + i] IN
+       /\ val' = [where |-> "rust", k |-> k, ptr |-> "A+1", len |-> m]
+       /\ data' = d /\ alive' = TRUE
+       /\ orig' = [ptr |-> "A+1", len |-> m, data |-> d]
+  /\ UNCHANGED <<frees, bad>>
 \* Rust -> FFI view  (From<&[T]> for DiplomatSlice, From<Box<[T]>> for DiplomatOwnedSlice, ...)
 Export == /\ Tick /\ val.where = "rust" /\ val' = From(val) /\ UNCHANGED <<data, alive, frees, orig, bad>>
 \* foreign code passes the C-land empty slice instead
@@ -51,11 +63,11 @@ ForeignNull(k) ==
 Import == /\ Tick /\ val.where = "ffi" /\ val' = Into(val) /\ UNCHANGED <<data, alive, frees, orig, bad>>
 \* Deref on the view itself
 ReadView == /\ Tick /\ val.where = "ffi"
-            /\ bad' = (bad \/ (val.ptr = "A" /\ ~alive))
+            /\ bad' = (bad \/ (InA(val.ptr) /\ ~alive))
             /\ UNCHANGED <<val, data, alive, frees, orig>>
 \* DerefMut on the view: store v at index i
 WriteView(i) == /\ Tick /\ val.where = "ffi" /\ Mutable(val.k) /\ i \in 1..val.len
-                /\ data' = [data EXCEPT ![i] = 99]
+                /\ data' = [data EXCEPT ![i + Off(val.ptr)] = 99]
                 /\ bad' = (bad \/ ~alive)
                 /\ UNCHANGED <<val, alive, frees, orig>>
 \* Drop of an owned view / of the Box: frees the allocation iff there is one
@@ -68,6 +80,7 @@ EndBorrow == /\ Tick /\ val.where \in {"ffi", "rust"} /\ ~Owned(val.k)
              /\ IF alive THEN alive' = FALSE /\ frees' = frees + 1 ELSE UNCHANGED <<alive, frees>>
              /\ val' = None /\ UNCHANGED <<data, orig, bad>>
 Next == \/ \E k \in Kind, n \in 0..MaxLen : RustMake(k, n)
+        \/ \E k \in Kind, n \in 1..MaxLen, m \in 0..MaxLen : RustMakeSub(k, n, m)
         \/ \E k \in Kind : ForeignNull(k)
         \/ Export \/ Import \/ ReadView \/ DropOwned \/ EndBorrow
         \/ \E i \in 1..MaxLen : WriteView(i)
